@@ -49,7 +49,7 @@ try:
         return out
 
     res['clean'] = demo('clean')
-    rc, o = sh('git apply _keep/%s/patch.diff' % sub, wt)
+    rc, o = sh('git apply _keep/%s/patch.diff && git add -A -- src include Makefile' % sub, wt)       # files the patch creates must survive the clean-up below
     res['patch_applies'] = rc == 0
     rc, o = sh('make test 2>&1 | tail -1', wt)
     res['make_test'] = o.strip()
